@@ -284,7 +284,9 @@ func (mp *MultiProof) Read(r io.Reader) error {
 	}
 	// Check that the next read is EOF.
 	var buf [1]byte
-	if _, err := r.Read(buf[:]); err != io.EOF {
+	// A reader may return the last byte of a stream together with io.EOF, so
+	// the probe must also see that no byte was delivered.
+	if n, err := r.Read(buf[:]); n != 0 || err != io.EOF {
 		return errors.New("expected EOF")
 	}
 
